@@ -5,5 +5,5 @@ CHECKS['C09'] = dict(
     text='For both maximum sizes, ADD-PATH on/off, five family mixes, /24 and /32 prefixes, one or two next hops, attribute blocks padded byte by byte (0-9) and across the 255-byte extended-length threshold, the prefix count is set to N-1, N, N+1, 2N, 2N+1 '
          'around the exact-fit count N measured on the implementation, in announce-only, withdraw-only and mixed mode (about 3000 grid points quick, each up to 65 KB). Every generated message must be within the negotiated size, carry its true length, decode on its own, '
          'and together they must announce exactly the requested routes with their attributes and their own next hop and withdraw exactly the requested withdrawals; attribute blocks leaving -1..40 bytes of room must give no oversized message and no exception.',
-    note='Trusted: vt/ref/wire.py. Duplicates of a requested item are tolerated, foreign items are not. Routes are parsed from text by the real API parser; IPv4 unicast routes of one collection share one next hop as the RIB groups them.',
+    note='Trusted: vt/ref/wire.py. Duplicates of a requested item are tolerated, foreign items are not. Routes are parsed from text by the real API parser; IPv4 unicast routes of one collection share one next hop as the RIB groups them. Outside: families other than IPv4/IPv6 unicast and VPNv4 (the form of the MP_REACH next hop of every other family is judged by C15 on one-route UPDATEs).',
 )
